@@ -7,12 +7,17 @@ export GOCACHE="${GOCACHE:-$HOME/.cache/go-build}"
 tier="${1:-${VERIF_TIER:-quick}}"
 mkdir -p bin evidence replays .work
 fail() { echo "SELF-CHECK property=C19 $1"; exit 2; }
+MODFLAG=""
+if [ -n "${VERIF_REPO:-}" ] && [ "$VERIF_REPO" != /repo ]; then
+  sed "s|=> /repo\$|=> $VERIF_REPO|" go.mod > .work/alt.mod; cp go.sum .work/alt.sum 2>/dev/null || cp "$VERIF_REPO/go.sum" .work/alt.sum
+  MODFLAG="-modfile=.work/alt.mod"
+fi
 python3 e4/gen_overlay.py > .work/overlay.log 2>&1 || { cat .work/overlay.log; fail "overlay generation failed"; }
-CGO_ENABLED=0 go build -overlay .work/overlay.json -tags e4 -o bin/vcheck19 ./cmd/vcheck19 2> .work/build19.log || { cat .work/build19.log; fail "E4 build (overlay) failed"; }
+CGO_ENABLED=0 go build $MODFLAG -overlay .work/overlay.json -tags e4 -o bin/vcheck19 ./cmd/vcheck19 2> .work/build19.log || { cat .work/build19.log; fail "E4 build (overlay) failed"; }
 # race pass: same bodies, unmodified sync, -race, free-running, fixed iteration count
 iters=2000; [ "$tier" = thorough ] && iters=20000
 rm -f .work/race.json
-if CGO_ENABLED=1 go build -race -o bin/vrace19 ./cmd/vrace19 2> .work/buildrace.log; then
+if CGO_ENABLED=1 go build $MODFLAG -race -o bin/vrace19 ./cmd/vrace19 2> .work/buildrace.log; then
   GORACE="halt_on_error=0" ./bin/vrace19 $iters > .work/race.out 2> .work/race.log
   python3 - <<PY
 import json,re
